@@ -18,6 +18,7 @@ import (
 	"go/ast"
 	"go/token"
 	"go/types"
+	"strings"
 )
 
 func ruleRangePlaces(c *Ctx, rule string) {
@@ -309,4 +310,433 @@ func isNilIdent(info *types.Info, e ast.Expr) bool {
 	}
 	_, ok := info.Uses[id].(*types.Nil)
 	return ok
+}
+
+// S2 — the closed-channel flag of select. reflect.Select reports whether a received value was sent (recvOK):
+// the received value itself is a valid zero value when the channel is closed, so the flag is the only
+// source for `v, ok := <-ch` in a select case. Decided: the third result of Select is bound and stored in a
+// slot of its own by the statement that runs the select; every boolean expression selectCase compiles for
+// the second variable of a receive reads that slot (through the parameter the slot's bind is passed in),
+// not the slot of the received value.
+func ruleSelectRecvOK(c *Ctx, rule string) {
+	pk := c.P.Pkg("fast")
+	info := pk.TypesInfo
+	fd := c.P.Func("fast.Comp.Select")
+	fc := c.P.Func("fast.Comp.selectCase")
+	if fd == nil || fc == nil || fd.Body == nil || fc.Body == nil {
+		c.Ob(rule, "fast.Comp.Select", nil, false, "anchor functions Select / selectCase not found")
+		return
+	}
+	di := buildDefIndex(info, fd)
+	var okObj types.Object
+	var selCall *ast.CallExpr
+	ast.Inspect(fd.Body, func(n ast.Node) bool {
+		as, ok := n.(*ast.AssignStmt)
+		if !ok || len(as.Rhs) != 1 || len(as.Lhs) != 3 {
+			return true
+		}
+		call, ok := unparen(as.Rhs[0]).(*ast.CallExpr)
+		if !ok {
+			return true
+		}
+		if fn := calleeOf(info, call); fn == nil || fn.Name() != "Select" || fn.Pkg() == nil || (fn.Pkg().Name() != "xreflect" && fn.Pkg().Name() != "reflect") {
+			return true
+		}
+		selCall = call
+		if id := identOf(as.Lhs[2]); id != nil && id.Name != "_" {
+			okObj = info.Defs[id]
+			if okObj == nil {
+				okObj = info.Uses[id]
+			}
+		}
+		return true
+	})
+	if selCall == nil {
+		c.Ob(rule, "fast.Comp.Select/call", fd, false, "no call of reflect-level Select found: anchor missing")
+		return
+	}
+	c.Ob(rule, "fast.Comp.Select/recvOK-bound", selCall, okObj != nil, "the third result of Select (false: the value is the zero value of a closed channel) is not discarded")
+	if okObj == nil {
+		return
+	}
+	// slots written under the control of recvOK
+	okBinds := map[types.Object]bool{}
+	mentions := func(n ast.Node) bool {
+		f := false
+		ast.Inspect(n, func(x ast.Node) bool {
+			if id, ok := x.(*ast.Ident); ok && info.Uses[id] == okObj {
+				f = true
+			}
+			return !f
+		})
+		return f
+	}
+	var stack []ast.Node
+	ast.Inspect(fd.Body, func(n ast.Node) bool {
+		if n == nil {
+			stack = stack[:len(stack)-1]
+			return true
+		}
+		stack = append(stack, n)
+		as, ok := n.(*ast.AssignStmt)
+		if !ok || len(as.Lhs) != 1 || len(as.Rhs) != 1 {
+			return true
+		}
+		ix, ok := unparen(as.Lhs[0]).(*ast.IndexExpr)
+		if !ok {
+			return true
+		}
+		_, idx, isVals := valsAccess(info, ix)
+		if !isVals {
+			return true
+		}
+		dep := mentions(as.Rhs[0])
+		for _, a := range stack {
+			if ifs, ok := a.(*ast.IfStmt); ok && mentions(ifs.Cond) {
+				dep = true
+			}
+		}
+		if dep {
+			if r := di.nearRoot(info, idx, 0); r != nil {
+				okBinds[r] = true
+			}
+		}
+		return true
+	})
+	c.Ob(rule, "fast.Comp.Select/recvOK-stored", selCall, len(okBinds) > 0, "recvOK is stored (directly or by a test on it) in a slot of the frame")
+	// parameters of selectCase that receive such a bind
+	okParams := map[types.Object]bool{}
+	ncall := 0
+	inspectCalls(fd.Body, func(call *ast.CallExpr) {
+		if funcFullName(calleeOf(info, call)) != "fast.Comp.selectCase" {
+			return
+		}
+		ncall++
+		k := 0
+		for _, f := range fc.Type.Params.List {
+			for _, nm := range f.Names {
+				if k < len(call.Args) {
+					if id := identOf(call.Args[k]); id != nil && okBinds[info.Uses[id]] {
+						okParams[info.Defs[nm]] = true
+					}
+				}
+				k++
+			}
+		}
+	})
+	c.Ob(rule, "fast.Comp.Select/recvOK-passed", fd, ncall > 0 && len(okParams) > 0, "the bind of the recvOK slot is passed to selectCase")
+	// every boolean expression compiled by selectCase reads only that slot
+	dic := buildDefIndex(info, fc)
+	n := 0
+	inspectCalls(fc.Body, func(call *ast.CallExpr) {
+		if funcFullName(calleeOf(info, call)) != "fast.Comp.exprBool" || len(call.Args) != 1 {
+			return
+		}
+		lit, ok := unparen(call.Args[0]).(*ast.FuncLit)
+		if !ok {
+			return
+		}
+		n++
+		good, reads := true, 0
+		ast.Inspect(lit.Body, func(x ast.Node) bool {
+			ix, ok := x.(*ast.IndexExpr)
+			if !ok {
+				return true
+			}
+			_, idx, isVals := valsAccess(info, ix)
+			if !isVals {
+				if _, idx2, isInts := intsAccess(info, ix); isInts {
+					idx = idx2
+				} else {
+					return true
+				}
+			}
+			reads++
+			if r := dic.nearRoot(info, idx, 0); r == nil || !okParams[r] {
+				good = false
+			}
+			return true
+		})
+		key := fmt.Sprintf("fast.Comp.selectCase/ok-expr#%d", n)
+		c.Ob(rule, key, lit, good && reads > 0, "the boolean compiled for the second variable of a receive reads the recvOK slot, not the slot of the received value (a value received from a closed channel is valid)")
+	})
+	if n == 0 {
+		c.Ob(rule, "fast.Comp.selectCase/ok-expr", fc, false, "no boolean expression for the second variable of a receive found: anchor missing")
+	}
+}
+
+// J5 — labels. LoopInfo.HasLabel decides whether a labelled break / continue targets a statement by binary
+// search. Decided: (a) a membership test built on sort.Search* holds only under `slice[i] == key`
+// (the search returns an insertion point, not a match); (b) every slice stored into LoopInfo.ThisLabels was
+// sorted by sort.Strings earlier in the same function.
+func ruleLabelMembership(c *Ctx, rule string) {
+	pk := c.P.Pkg("fast")
+	info := pk.TypesInfo
+	nsearch, nlit := 0, 0
+	for _, fd := range c.P.FuncsOf("fast") {
+		if fd.Body == nil {
+			continue
+		}
+		fkey := funcKey(pk, fd)
+		// (a)
+		ast.Inspect(fd.Body, func(n ast.Node) bool {
+			as, ok := n.(*ast.AssignStmt)
+			if !ok || len(as.Lhs) != 1 || len(as.Rhs) != 1 {
+				return true
+			}
+			call, ok := unparen(as.Rhs[0]).(*ast.CallExpr)
+			if !ok || len(call.Args) != 2 {
+				return true
+			}
+			fn := calleeOf(info, call)
+			if fn == nil || fn.Pkg() == nil || fn.Pkg().Path() != "sort" || !strings.HasPrefix(fn.Name(), "Search") || fn.Name() == "Search" {
+				return true
+			}
+			id := identOf(as.Lhs[0])
+			if id == nil {
+				return true
+			}
+			io := info.Defs[id]
+			if io == nil {
+				io = info.Uses[id]
+			}
+			nsearch++
+			slice, key := exprString(call.Args[0]), exprString(call.Args[1])
+			uses := func(e ast.Node) bool {
+				f := false
+				ast.Inspect(e, func(x ast.Node) bool {
+					if i, ok := x.(*ast.Ident); ok && info.Uses[i] == io {
+						f = true
+					}
+					return !f
+				})
+				return f
+			}
+			judge := func(e ast.Expr, at ast.Node) {
+				if t, ok := info.TypeOf(e).Underlying().(*types.Basic); !ok || t.Info()&types.IsBoolean == 0 || !uses(e) {
+					return
+				}
+				good := true
+				for _, d := range orAtoms(e) {
+					if !uses(d) {
+						continue
+					}
+					has := false
+					for _, a := range andAtoms(d) {
+						b, ok := unparen(a).(*ast.BinaryExpr)
+						if !ok || b.Op != token.EQL {
+							continue
+						}
+						for _, p := range [][2]ast.Expr{{b.X, b.Y}, {b.Y, b.X}} {
+							if ix, ok := unparen(p[0]).(*ast.IndexExpr); ok && exprString(ix.X) == slice && identOf(ix.Index) != nil && info.Uses[identOf(ix.Index)] == io && exprString(p[1]) == key {
+								has = true
+							}
+						}
+					}
+					if !has {
+						good = false
+					}
+				}
+				c.Ob(rule, fkey+"/membership", at, good, fmt.Sprintf("a test on the result of %s holds only where %s[%s] == %s", fn.Name(), slice, id.Name, key))
+			}
+			ast.Inspect(fd.Body, func(x ast.Node) bool {
+				switch y := x.(type) {
+				case *ast.ReturnStmt:
+					for _, r := range y.Results {
+						judge(r, y)
+					}
+				case *ast.IfStmt:
+					judge(y.Cond, y)
+				}
+				return true
+			})
+			return true
+		})
+		// (b)
+		ast.Inspect(fd.Body, func(n ast.Node) bool {
+			cl, ok := n.(*ast.CompositeLit)
+			if !ok || !isNamedType(info.TypeOf(cl), "fast", "LoopInfo") {
+				return true
+			}
+			for _, el := range cl.Elts {
+				kv, ok := el.(*ast.KeyValueExpr)
+				if !ok || identOf(kv.Key) == nil || identOf(kv.Key).Name != "ThisLabels" {
+					continue
+				}
+				nlit++
+				vo := usedObj(info, kv.Value)
+				sorted := false
+				var sortPos token.Pos
+				inspectCalls(fd.Body, func(call *ast.CallExpr) {
+					fn := calleeOf(info, call)
+					if fn != nil && fn.Pkg() != nil && fn.Pkg().Path() == "sort" && fn.Name() == "Strings" && len(call.Args) == 1 && call.Pos() < cl.Pos() && vo != nil && usedObj(info, call.Args[0]) == vo {
+						sorted = true
+						sortPos = call.Pos()
+					}
+				})
+				// no write to the slice between the sort and the literal
+				if sorted {
+					ast.Inspect(fd.Body, func(m ast.Node) bool {
+						if as, ok := m.(*ast.AssignStmt); ok && as.Pos() > sortPos && as.Pos() < cl.Pos() {
+							for _, l := range as.Lhs {
+								if usedObj(info, l) == vo {
+									sorted = false
+								}
+								if ix, ok := unparen(l).(*ast.IndexExpr); ok && usedObj(info, ix.X) == vo {
+									sorted = false
+								}
+							}
+						}
+						return true
+					})
+				}
+				c.Ob(rule, fkey+"/labels-sorted", kv, sorted, "the labels stored in LoopInfo.ThisLabels were sorted with sort.Strings before (HasLabel searches them by bisection)")
+			}
+			return true
+		})
+	}
+	if nsearch == 0 {
+		c.Ob(rule, "fast.LoopInfo.HasLabel", nil, false, "no sort.Search* membership test found: anchor missing")
+	}
+	if nlit == 0 {
+		c.Ob(rule, "fast/LoopInfo.ThisLabels", nil, false, "no LoopInfo literal with ThisLabels found: anchor missing")
+	}
+}
+
+// S3 — every clause of a select leaves the statement: the function that compiles a clause (selectDefault,
+// selectCase: the functions returning a selectEntry that compile the clause body) emits, after the body and
+// on every path to its return, the jump to the select's own Break target in the current frame.
+func ruleSelectClauseExit(c *Ctx, rule string) {
+	pk := c.P.Pkg("fast")
+	info := pk.TypesInfo
+	n := 0
+	for _, fd := range c.P.FuncsOf("fast") {
+		if fd.Body == nil || fd.Type.Results == nil || len(fd.Type.Results.List) != 1 || !isNamedType(info.TypeOf(fd.Type.Results.List[0].Type), "fast", "selectEntry") {
+			continue
+		}
+		// compiles a clause body?
+		var bodyPos token.Pos
+		inspectCalls(fd.Body, func(call *ast.CallExpr) {
+			if funcFullName(calleeOf(info, call)) == "fast.Comp.List" {
+				if call.Pos() > bodyPos {
+					bodyPos = call.Pos()
+				}
+			}
+		})
+		if bodyPos == 0 {
+			continue
+		}
+		n++
+		// last statements of the function body: ... c.jumpOut(0, c.Loop.Break); return
+		good, why := false, "no jumpOut(0, c.Loop.Break) at the top level of the function after the clause body"
+		for _, st := range fd.Body.List {
+			es, ok := st.(*ast.ExprStmt)
+			if !ok || st.Pos() < bodyPos {
+				continue
+			}
+			call, ok := es.X.(*ast.CallExpr)
+			if !ok || funcFullName(calleeOf(info, call)) != "fast.Comp.jumpOut" || len(call.Args) != 2 {
+				continue
+			}
+			zero := false
+			if tv, ok := info.Types[call.Args[0]]; ok && tv.Value != nil && tv.Value.String() == "0" {
+				zero = true
+			}
+			_, isBreak := fieldSel(info, call.Args[1], "Break")
+			if zero && isBreak {
+				good, why = true, ""
+			} else {
+				why = "the jump after the clause body is not jumpOut(0, <Loop>.Break)"
+			}
+		}
+		// no return between the body and the jump
+		c.Ob(rule, funcKey(pk, fd), fd, good, "after the body of a select clause the compiled code jumps to the end of the select in the same frame"+sep(why))
+	}
+	if n < 2 {
+		c.Ob(rule, "fast/selectEntry", nil, false, fmt.Sprintf("%d functions compile a select clause, expected the default and the communication clause compilers", n))
+	}
+}
+
+// G2 — ranging over a string advances by the width of the first rune of what is left: in every statement
+// closure of rangeString that updates the hidden offset, the amount added is the size returned by
+// utf8.DecodeRuneInString applied to s[offset:] (the string from the current offset to its end), and a
+// rune handed to user code is the first result of the same call.
+func ruleRangeStringDecode(c *Ctx, rule string) {
+	pk := c.P.Pkg("fast")
+	info := pk.TypesInfo
+	fd := c.P.Func("fast.Comp.rangeString")
+	if fd == nil || fd.Body == nil {
+		c.Ob(rule, "fast.Comp.rangeString", nil, false, "anchor function not found")
+		return
+	}
+	n := 0
+	ast.Inspect(fd.Body, func(nd ast.Node) bool {
+		lit, ok := nd.(*ast.FuncLit)
+		if !ok {
+			return true
+		}
+		// calls into unicode/utf8 in this closure
+		var calls []*ast.CallExpr
+		inspectCalls(lit.Body, func(call *ast.CallExpr) {
+			if fn := calleeOf(info, call); fn != nil && fn.Pkg() != nil && fn.Pkg().Path() == "unicode/utf8" {
+				calls = append(calls, call)
+			}
+		})
+		if len(calls) == 0 {
+			return false
+		}
+		n++
+		key := fmt.Sprintf("fast.Comp.rangeString/decode#%d", n)
+		if len(calls) != 1 {
+			c.Ob(rule, key, lit, false, "more than one utf8 call in one iteration closure")
+			return false
+		}
+		call := calls[0]
+		fn := calleeOf(info, call)
+		good, why := true, ""
+		if fn.Name() != "DecodeRuneInString" {
+			good, why = false, "the rune is decoded with utf8."+fn.Name()+", not with DecodeRuneInString (first rune of the rest of the string)"
+		}
+		var offObj types.Object
+		if good {
+			se, ok := unparen(call.Args[0]).(*ast.SliceExpr)
+			if !ok || se.High != nil || se.Max != nil || se.Low == nil || identOf(se.Low) == nil {
+				good, why = false, "the argument is not s[offset:]"
+			} else {
+				offObj = info.Uses[identOf(se.Low)]
+			}
+		}
+		// the size (second result) is what is added to the offset
+		if good {
+			var sizeObj types.Object
+			ast.Inspect(lit.Body, func(x ast.Node) bool {
+				if as, ok := x.(*ast.AssignStmt); ok && len(as.Rhs) == 1 && unparen(as.Rhs[0]) == ast.Expr(call) && len(as.Lhs) == 2 {
+					if id := identOf(as.Lhs[1]); id != nil {
+						sizeObj = info.Defs[id]
+						if sizeObj == nil {
+							sizeObj = info.Uses[id]
+						}
+					}
+				}
+				return true
+			})
+			added := false
+			ast.Inspect(lit.Body, func(x ast.Node) bool {
+				if as, ok := x.(*ast.AssignStmt); ok && as.Tok == token.ADD_ASSIGN && len(as.Lhs) == 1 && len(as.Rhs) == 1 {
+					if lo := usedObj(info, as.Lhs[0]); lo != nil && lo == offObj && sizeObj != nil && usedObj(info, as.Rhs[0]) == sizeObj {
+						added = true
+					}
+				}
+				return true
+			})
+			if !added {
+				good, why = false, "the offset is not advanced by the size the decoder returned"
+			}
+		}
+		c.Ob(rule, key, call, good, "the iteration decodes the first rune of s[offset:] and advances the offset by its width"+sep(why))
+		return false
+	})
+	if n < 3 {
+		c.Ob(rule, "fast.Comp.rangeString/decode", fd, false, fmt.Sprintf("%d decoding closures found, 3 confirmed by reading (no value, direct store, through a hidden variable)", n))
+	}
 }
